@@ -117,7 +117,7 @@ func (fi *FuncInfo) computeFacts() {
 		in[fn.Recover.Index] = atomSet{}
 	}
 	edgeOut := func(p, b *ssa.BasicBlock) atomSet {
-		if in[p.Index] == nil {
+		if in[p.Index] == nil || blockNoReturn(p) {
 			return nil
 		}
 		out := atomSet{}
